@@ -471,6 +471,14 @@ pub fn corner_seq(rng: &mut Rng, w: &Words, k: usize, total: usize, upper: usize
     v
 }
 
+/// one trigger word of every level, low to high and back
+pub fn level_sweep(rng: &mut Rng, w: &Words) -> Vec<u8> {
+    let mut sweep = vec![];
+    for lv in (0..=30usize).chain((0..=30usize).rev()) {
+        sweep.extend_from_slice(pw(rng, &w.levels[lv]));
+    }
+    sweep
+}
 /// C01: the piece-count corner grid at EVERY block size index (generator positioned by the
 /// guarded zero-prefix hook so that the size is over the elimination border of index k).
 pub fn drive_corner_grid(rec: &mut GenRec, rng: &mut Rng, w: &Words, thorough: bool) {
@@ -502,6 +510,14 @@ pub fn drive_corner_grid(rec: &mut GenRec, rng: &mut Rng, w: &Words, thorough: b
                     };
                     rec.update(0, 0, &tail);
                     rec.fin(0);
+                    // once per index: one word of EVERY level, low to high and back.  The lower bound
+                    // has advanced by now, so the words below it must be ignored (each tests one bit
+                    // of the rolling-hash mask) and the words at or above it must still count.
+                    if total == totals[0] && upper == uppers[0] && order == orders[0] {
+                        let sweep = level_sweep(rng, w);
+                        rec.update(0, 1, &sweep);
+                        rec.fin(0);
+                    }
                 }
             }
         }
